@@ -161,6 +161,13 @@ def _choice_calls(view, prov, op, depth=0, seen=None, facts=None):
                 seen.add(r.site)
                 for a in t["args"]:
                     out |= _choice_calls(view, prov, a, depth + 1, seen, facts)
+            elif facts is not None and seg not in NONZERO and t["f"].get("res") in facts.bodies and depth < 4 and \
+                    "Choice" in (view.locals[t["dst"][0]] or ""):
+                # a private helper that returns the gate (`floor_adjustment(&remainder, lhs_sgn)`): what it is built from
+                cb = facts.bodies[t["f"]["res"]]
+                cv = mir.BodyView(cb)
+                out |= _choice_calls(cv, mir.Provenance(cv), ("c", (0, [])), depth + 1, set(), facts) - {"?"}
+                out.add(seg)
             else:
                 out.add(seg)
         elif r.kind != "const":
